@@ -630,6 +630,16 @@ func genState(t src, fn *wasiabi.Func, c *Case) []StateOp {
 			ops = append(ops, StateOp{Op: "seek", Sel: uni(t, "st-sel", 0, 7), N: pick(t, "st-seekn", []uint32{0, 5, 100, 1000})})
 		}
 	}
+	// Sometimes the guest has closed a standard stream, as the LAST table operation so that the
+	// slot is still empty during the call under test (poll_oneoff polls its delayed fd_read
+	// subscriptions through descriptor 0, whatever descriptor they name).
+	pct := 10
+	if fn.Name == "poll_oneoff" {
+		pct = 40
+	}
+	if chance(t, "st-closestd", pct) {
+		ops = append(ops, StateOp{Op: "closefd", To: pick(t, "st-std", []int32{0, 0, 0, 1, 2})})
+	}
 	return ops
 }
 
